@@ -47,7 +47,8 @@ def campaign_c14(seed, tier):
                 if first != "discover":
                     e = emit(key_mac(1), OWN, [(1, 0, OWN, key_mac(30))], seq=6)
                     lines.append("GLUE %d 0 %s" % (len(e), e.hex()))
-                lines += ["ADV %d" % small, "TICK", "ADV 28000", "TICK", "ADV 3100", "TICK", "ADV 1000", "TICK"]
+                # ticks just before, exactly at (the very second the 30 s are over) and after the deadline
+                lines += ["ADV %d" % small, "TICK", "ADV 28000", "TICK", "ADV %d" % (2000 - small), "TICK", "ADV 1100", "TICK", "ADV 1000", "TICK"]
                 lines.append("GLUE %d 0 %s" % (len(f), f.hex()))
                 lines += ["ADV 31000", "TICK", "TICK"]
                 scs.append(Scenario("c14-inactive-%d-%s-%d" % (ci, first.replace("+", ""), small), lines))
